@@ -50,6 +50,7 @@ LEVEL = "exploration"
 NEEDS_EXT = True     # pytype.typegraph.cfg_utils imports the C++ cfg module
 
 PYVER = (3, 12)
+OTHER_VERSIONS = [(3, 11)]   # the only other interpreter pytype finds on PATH in this image
 HORIZON = 90         # s per source (the largest stdlib file needs about 2 s); no result by then = violation (x)
 _SLOW = [False]      # set by the first time-out in this process: later sources get 5 s, their work item stops
 STDLIB = os.environ.get("VERIF_STDLIB", "/root/.pyenv/versions/3.12.1/lib/python3.12")
@@ -149,8 +150,10 @@ def check_code(oc, pycode, st):
   # (h) the stream is CPython's instruction stream (+ pseudo-ops) and every
   #     jump resolves to the instruction CPython's dis says it jumps to
   real = [op for op in ops if _name(op) not in _PSEUDO]
-  cp = _cpython_stream(pycode)
-  if [_name(op) for op in real] != [n for _, n, _ in cp]:
+  cp = _cpython_stream(pycode) if pycode is not None else None
+  if cp is None:
+    pass   # another target version: the host's dis is not the reference for the stream
+  elif [_name(op) for op in real] != [n for _, n, _ in cp]:
     k = next((i for i, (a, b) in enumerate(zip(real, cp)) if _name(a) != b[1]), min(len(real), len(cp)))
     v("h", "stream differs from CPython's at real instruction %d (%d vs %d instructions)" % (k, len(real), len(cp)))
   else:
@@ -302,6 +305,35 @@ def check_code(oc, pycode, st):
   return bad
 
 
+_EXE = {}
+
+
+def _python_exe(pyver):
+  """An interpreter of the target version: pytype's own lookup, resolved to the real binary.
+
+  (pytype would find `python3.11` on PATH; here that is a pyenv shell shim costing ~1 s per call,
+  so the shim is resolved once to the binary it would exec.)
+  """
+  if pyver not in _EXE:
+    import shutil
+    import subprocess
+    from pytype.pyc import compiler
+    try:
+      exe = compiler.get_python_executable(pyver)
+    except Exception:  # pylint: disable=broad-except
+      exe = None
+    if exe:
+      try:
+        real = subprocess.run(exe + ["-c", "import sys; print(sys.executable)"], capture_output=True, text=True,
+                              timeout=60).stdout.strip()
+        if real and os.path.exists(real):
+          exe = [os.path.realpath(real)]
+      except Exception:  # pylint: disable=broad-except
+        pass
+    _EXE[pyver] = exe
+  return _EXE[pyver]
+
+
 class NoTermination(Exception):
   pass
 
@@ -310,8 +342,13 @@ def _on_alarm(signum, frame):
   raise NoTermination("no block graph within the horizon")
 
 
-def check_source(src, filename, st):
-  """Run the real pipeline on one source; returns the list of violations (strings)."""
+def check_source(src, filename, st, pyver=None):
+  """Run the real pipeline on one source; returns the list of violations (strings).
+
+  pyver other than the host's: the source is compiled by that interpreter (pytype's own
+  compile path for other target versions); clause (h) (comparison with the host's dis) is skipped.
+  """
+  pyver = pyver or PYVER
   boot.load()
   from pytype.blocks import blocks
   from pytype.pyc import pyc
@@ -326,7 +363,7 @@ def check_source(src, filename, st):
     signal.setitimer(signal.ITIMER_REAL, 5 if _SLOW[0] else HORIZON)
     try:
       try:
-        code = pyc.compile_src(src, filename, PYVER, None)
+        code = pyc.compile_src(src, filename, pyver, _python_exe(pyver))
         oc, _ = blocks.process_code(code)
       finally:
         signal.setitimer(signal.ITIMER_REAL, 0)
@@ -339,11 +376,16 @@ def check_source(src, filename, st):
     finally:
       signal.signal(signal.SIGALRM, old)
   bad = []
+  if pyver != PYVER:
+    pycode = None
   todo = [(oc, pycode)]
   while todo:
     o, p = todo.pop()
     bad += check_code(o, p, st)
     kids = [(i, c) for i, c in enumerate(o.consts) if isinstance(c, blocks.OrderedCode)]
+    if p is None:
+      todo += [(c, None) for _, c in kids]
+      continue
     pk = [i for i, c in enumerate(p.co_consts) if isinstance(c, types.CodeType)]
     if [i for i, _ in kids] != pk:
       bad.append(("(h) nested code objects differ from CPython's",
@@ -406,14 +448,21 @@ def work(item):
   st = {}
   sigs = {}
   if kind == "ps":
-    _, depth, bucket = item
+    _, depth, bucket = item[:3]
+    pyver = tuple(item[3]) if len(item) > 3 else None
     gen = {}
     for pid, src in psfull.programs(depth, bucket=tuple(bucket), stats=gen):
-      bad = check_source(src, pid, st)
+      bad = check_source(src, pid, st, pyver)
+      if pyver:
+        st["programs_other_target_versions"] = st.get("programs_other_target_versions", 0) + 1
+        if bad and any("pipeline raised CompileError" in b[0] for b in bad):
+          # the other interpreter rejects syntax the host accepts (match, except*, ...): not a block-graph case
+          st["rejected_by_other_interpreter"] = st.get("rejected_by_other_interpreter", 0) + 1
+          continue
       st["programs"] = st.get("programs", 0) + 1
       if bad:
         st["bad_inputs"] = st.get("bad_inputs", 0) + 1
-        _note(sigs, bad, len(src), {"kind": "ps", "id": pid})
+        _note(sigs, bad, len(src), {"kind": "ps", "id": pid, "pyver": list(pyver) if pyver else None})
         if st.get("timeouts"):
           st["items_cut_short"] = 1
           break
@@ -449,6 +498,17 @@ def run(rep, tier, seed):
   files = corpus(tier)
   # chunks of ~8 files, the big ones spread out; the seed permutes item order only
   items = [("ps", depth, list(b)) for b in psfull.buckets(depth)]
+  # other target versions (compiled by that interpreter, the path pytype takes for --python-version)
+  for ver in OTHER_VERSIONS:
+    if not _python_exe(ver):     # resolved once here, inherited by the forked workers
+      rep.cap("no interpreter for target version %s.%s found: that part of the space is not covered" % ver)
+      continue
+    if tier == "quick":
+      items += [("ps", 2, list(b), list(ver)) for b in psfull.buckets(2, contexts=("afn",))
+                if b[1] is not None and b[1][0] in ("asyncfor", "asyncwith", "tryfull", "with", "whileelse")]
+      items += [("ps", 1, list(b), list(ver)) for b in psfull.buckets(1)]
+    else:
+      items += [("ps", 2, list(b), list(ver)) for b in psfull.buckets(2)]
   files_by_size = sorted(files, key=lambda f: (-os.path.getsize(f), f))
   nchunk = max(1, len(files) // 8)
   items += [("files", files_by_size[i::nchunk]) for i in range(nchunk)]
@@ -491,7 +551,9 @@ def run(rep, tier, seed):
       "code_objects": g("code_objects", 0), "blocks": g("blocks", 0), "instructions": g("instructions", 0),
       "jumps_checked_against_dis": g("jumps", 0), "pseudo_ops": g("pseudo_ops", 0),
       "jumps_retargeted_by_async_for_merge": g("retargeted", 0),
-      "work_items": len(items),
+      "work_items": len(items), "other_target_versions": [list(v) for v in OTHER_VERSIONS],
+      "programs_other_target_versions": g("programs_other_target_versions", 0),
+      "rejected_by_other_interpreter": g("rejected_by_other_interpreter", 0),
   })
   rep.rule = ("one evaluation = one code object (module, function, lambda, comprehension, class body, generator, "
               "async) of one PS-full program or stdlib file, produced by pyc.compile_src + blocks.process_code and "
@@ -519,7 +581,7 @@ def replay(case):
   else:
     src = _read(os.path.join(STDLIB, case["path"]))
     name = case["path"]
-  bad = check_source(src, name, {}) or []
+  bad = check_source(src, name, {}, tuple(case["pyver"]) if case.get("pyver") else None) or []
   # the recorded signature first, then anything else the input shows
   bad.sort(key=lambda sm: (sm[0] != case.get("signature"), sm))
   out, seen = [], set()
